@@ -213,18 +213,40 @@ fn check_program(ctx: &mut Ctx, id: &str, prog: &str, c: &Cfg, n_lits_expected: 
             // reduce to the single literal for the replay file
             let form = if x.starts_with('"') { "dq" } else if x.starts_with('\'') { "sq" } else { "long" };
             // long brackets have no escapes: their only feature is a raw carriage return
-            let feature = if form == "long" {
-                if x.contains("\r\n\r") || x.contains("\r\r\n") || x.contains("\n\r") {
-                    "cr-lf-run" // a run of CR / LF characters that is more than one plain CR LF pair
-                } else if x.replace("\r\n", "").contains('\r') {
-                    "bare-cr"
+            let feature: String = if form == "long" {
+                // the first run of CR / LF characters that is not a plain LF or a plain CR LF pair, spelled
+                // out (C = CR, L = LF), under the configured line ending: Lua reads CR, LF, CR LF and LF CR
+                // each as one line break, so every shape of run regroups differently when it is rewritten
+                let bytes = x.as_bytes();
+                let mut run = String::new();
+                let mut k = 0;
+                while k < bytes.len() {
+                    if bytes[k] == b'\r' || bytes[k] == b'\n' {
+                        let s0 = k;
+                        while k < bytes.len() && (bytes[k] == b'\r' || bytes[k] == b'\n') {
+                            k += 1;
+                        }
+                        let r = &x[s0..k];
+                        if r != "\n" && r != "\r\n" {
+                            run = r.chars().take(8).map(|ch| if ch == '\r' { 'C' } else { 'L' }).collect();
+                            break;
+                        }
+                    } else {
+                        k += 1;
+                    }
+                }
+                if !run.is_empty() && id.starts_with("c04:seeded") {
+                    // seeded bodies reach run shapes the pinned enumeration does not list one by one
+                    "cr-lf-run".to_string()
+                } else if !run.is_empty() {
+                    format!("run-{run}:{}", c.line_endings)
                 } else if x.contains('\r') {
-                    "crlf"
+                    "crlf".to_string()
                 } else {
-                    "none"
+                    "none".to_string()
                 }
             } else {
-                escape_feature(x)
+                escape_feature(x).to_string()
             };
             let sg = format!("C04:string:{}:{}", form, feature);
             let single = format!("local v = {x}\n");
